@@ -11,12 +11,13 @@ The specification side is `validate` / `wellFormed` of Json/Validator.lean.
 
 The statement at full strength (`C16_full`) is false of the code: `C16_full_refuted`
 (an Integer holding `True` serialises to `true`, which is not a JSON-Schema integer;
-`wellFormed_refuted`: `Selector(objects=[])` yields `"anyOf": []`).  Proved: the
-`_partial` theorems with the side conditions `SchemaOK` / `ValueOK` spelled out, and
-`out_of_bounds_rejected` with no side condition at all.
+`wellFormed_refuted`: a lower bound `+inf` is still copied into the schema).  Proved: the
+`_partial` theorems with the remaining side conditions `SchemaOK` / `ValueOK` spelled
+out, and `out_of_bounds_rejected` for every finite JSON number with no side condition
+on the declaration.
 
 Only property theorems, their hypotheses' definitions and non-vacuity examples live
-here; helper lemmas are in Json/Lemmas.lean (`ClassSpec.exact`, `Bounds.finite`,
+here; helper lemmas are in Json/Lemmas.lean (`ClassSpec.exact`, `Bounds.emittedFinite`,
 `ClassSpec.nonEmpty` are defined there next to the lemmas that use them).
 -/
 import ParamVerif.Json.Lemmas
@@ -24,16 +25,17 @@ import ParamVerif.Json.Lemmas
 namespace ParamVerif.Json
 
 
-/-- Configuration side conditions under which the generated schema is well formed (the
-complement is the findings: non-finite bounds, a Selector without objects, an empty class tuple):
-declared bounds finite, Selector objects present and finite, class tuples non-empty; Color,
-DateRange, CalendarDateRange have no JSON-schema support (`{'type': 'color'}` …). -/
+/-- Configuration side conditions under which the generated schema is well formed: the bounds
+written into the schema are finite (`-inf` below / `+inf` above are skipped by the code; a lower
+bound `+inf` or `nan`, an upper bound `-inf` or `nan` are not), Selector objects are finite
+numbers/strings/None, class tuples are non-empty; Color, DateRange, CalendarDateRange have no
+JSON-schema support (`{'type': 'color'}` …). -/
 def SchemaOK (p : Param) : Bool :=
   match p.cfg with
-  | .integer b => b.finite
-  | .number b => b.finite
-  | .range b => b.finite
-  | .selector objs => !objs.isEmpty && PyVal.finiteL objs
+  | .integer b => b.emittedFinite
+  | .number b => b.emittedFinite
+  | .range b => b.emittedFinite
+  | .selector objs => PyVal.finiteL objs
   | .listSelector objs => PyVal.finiteL objs
   | .list (some s) _ _ => s.nonEmpty
   | .classSelector s => s.nonEmpty
@@ -84,16 +86,14 @@ theorem baseSchema_well_formed (p : Param) (h : SchemaOK p = true) (s : Json) (h
     simp only [selectorSchema] at hs
     split at hs
     · simp at hs; subst hs; rfl
-    · rename_i ts hts
+    · simp at hs; subst hs; rfl
+    · rename_i ts hne hts
       split at hs
       · simp at hs
       · rename_i enum henum
-        simp at hs h; subst hs
-        have hne : ts ≠ [] := by
-          intro e; have := literalTypes_length hts; rw [e] at this
-          exact h.1 (List.length_eq_zero_iff.1 this.symm)
+        simp at hs; subst hs
         have h1 := wellFormedAll_typeObjs (literalTypes_known hts)
-        have h2 := enum_members_ok hts henum h.2
+        have h2 := enum_members_ok hts henum h
         cases ts with
         | nil => exact absurd rfl hne
         | cons t ts' =>
@@ -118,13 +118,13 @@ theorem baseSchema_well_formed (p : Param) (h : SchemaOK p = true) (s : Json) (h
 
 
 /-- Value side conditions under which the serialized value validates (the complement is the
-findings): `None` only where the schema is wrapped nullable (effective `allow_None`) or listed;
-no `bool` held by Integer / Number; items of a typed List and the value of a ClassSelector are
-*exact* instances (`ClassSpec.exact`: an `int` item is not a `bool`, and the classes `bool` and
+two recorded findings): `None` where the schema is nullable (`allow_None` or a `None` default) or
+listed; no `bool` held by Integer / Number; items of a typed List and the value of a ClassSelector
+are *exact* instances (`ClassSpec.exact`: an `int` item is not a `bool`, and the classes `bool` and
 `list`, which the schema declares as `object`, do not occur); a Selector / ListSelector value is
 one of the objects itself (same type, not merely `==`). -/
 def ValueOK (p : Param) (v : PyVal) : Prop :=
-  (v = .none ∧ p.effAllowNone = true) ∨
+  (v = .none ∧ p.schemaNullable = true) ∨
   match p.cfg, v with
   | .integer _, .bool _ => False
   | .number _, .bool _ => False
@@ -135,8 +135,20 @@ def ValueOK (p : Param) (v : PyVal) : Prop :=
   | _, .none => False
   | _, _ => True
 
+/-- lemma: a reachable state is an accepted value or the `None` default, under which the schema is nullable -/
+theorem stateOK_cases {p : Param} {v : PyVal} (h : p.stateOK v = true) :
+    p.validB v = true ∨ (v = .none ∧ p.schemaNullable = true) := by
+  unfold Param.stateOK at h
+  simp only [Bool.or_eq_true] at h
+  rcases h with h | h
+  · exact Or.inl h
+  · right
+    split at h
+    · rename_i hd; exact ⟨rfl, by simp [Param.schemaNullable, hd]⟩
+    · simp at h
+
 /-- lemma: `None` under a nullable schema -/
-theorem validates_none {p : Param} {s j : Json} (han : p.effAllowNone = true)
+theorem validates_none {p : Param} {s j : Json} (han : p.schemaNullable = true)
     (hs : p.schema = .ok s) (hj : serializeValue p .none = .ok j) : validate s j = true := by
   simp [serializeValue, serialize_none, dumps] at hj; subst hj
   unfold Param.schema at hs
@@ -147,10 +159,14 @@ theorem validates_none {p : Param} {s j : Json} (han : p.effAllowNone = true)
 
 /-- **C16 (per parameter), provable part.**  For every in-scope parameter type and configuration
 (bounds, inclusivity, length, item type, objects, allow_None) the serialized form of a valid,
-finite value that satisfies `ValueOK` validates against the parameter's schema. -/
-theorem serialized_validates_partial (p : Param) (v : PyVal) (hsc : inScope16 p.cfg = true) (hv : p.validB v = true) (hf : v.finite = true)
+finite state (an accepted value, or the unvalidated `None` default) that satisfies `ValueOK`
+validates against the parameter's schema. -/
+theorem serialized_validates_partial (p : Param) (v : PyVal) (hsc : inScope16 p.cfg = true)
+    (hst : p.stateOK v = true) (hf : v.finite = true)
     (hok : ValueOK p v) (s j : Json) (hs : p.schema = .ok s) (hj : serializeValue p v = .ok j) :
     validate s j = true := by
+  rcases stateOK_cases hst with hv | ⟨rfl, han⟩
+  case inr => exact validates_none han hs hj
   rcases hok with ⟨rfl, han⟩ | hok
   · exact validates_none han hs hj
   unfold Param.schema at hs
@@ -166,19 +182,19 @@ theorem serialized_validates_partial (p : Param) (v : PyVal) (hsc : inScope16 p.
     rename_i n
     simp [serializeValue, PCfg.serialize, dumps] at hj; subst hj
     simp [Param.baseSchema] at hs0; subst hs0
-    rw [validate_numberSchema _ _ _ (Fl.ofInt n) rfl]
+    rw [validate_numberSchema _ _ _ (Fl.ofInt n) rfl rfl]
     simp [hasType, hv]
   | number b =>
     cases v <;> simp [Param.validB, PCfg.accepts] at hv <;> simp at hok
     · rename_i n
       simp [serializeValue, PCfg.serialize, dumps] at hj; subst hj
       simp [Param.baseSchema] at hs0; subst hs0
-      rw [validate_numberSchema _ _ _ (Fl.ofInt n) rfl]
+      rw [validate_numberSchema _ _ _ (Fl.ofInt n) rfl rfl]
       simp [hasType, hv]
     · rename_i x
       simp [serializeValue, PCfg.serialize, dumps] at hj; subst hj
       simp [Param.baseSchema] at hs0; subst hs0
-      rw [validate_numberSchema _ _ _ x rfl]
+      rw [validate_numberSchema _ _ _ x rfl (by simpa [PyVal.finite] using hf)]
       simp [hasType, hv]
   | string =>
     cases v <;> simp [Param.validB, PCfg.accepts] at hv <;> simp at hok
@@ -299,7 +315,8 @@ theorem serialized_validates_partial (p : Param) (v : PyVal) (hsc : inScope16 p.
     have hmem : v ∈ objs := by simpa using hok
     split at hs0
     · simp at hs0; subst hs0; simp [validate, validateKws]
-    · rename_i ts hts
+    · simp at hs0; subst hs0; simp [validate, validateKws]
+    · rename_i ts _ hts
       split at hs0
       · simp at hs0
       · rename_i enum henum
@@ -344,7 +361,7 @@ theorem schema_well_formed_partial (p : Param) (h : SchemaOK p = true) (s : Json
   · rename_i s0 hs0
     simp only [Except.ok.injEq] at hs; subst hs
     have := baseSchema_well_formed p h s0 hs0
-    cases p.effAllowNone <;> simp [wellFormed_nullable, this]
+    cases p.schemaNullable <;> simp [wellFormed_nullable, this]
 
 /-- **C16: `Cls.param.schema()` is well formed**: every entry (with `description` / `title`) of a
 class all of whose parameters satisfy `SchemaOK`. -/
@@ -370,11 +387,11 @@ theorem class_schema_well_formed (ps : List Param) (h : ∀ p ∈ ps, SchemaOK p
 /-! ## Validation of the state -/
 
 /-- **C16 (object level).**  For a class with distinct parameter names and a state all of whose
-entries are in scope, valid, finite and `ValueOK`, the output of `serialize_parameters()` validates
+entries are in scope, reachable (`stateOK`), finite and `ValueOK`, the output of `serialize_parameters()` validates
 against `{"type": "object", "properties": Cls.param.schema()}`. -/
 theorem state_validates_partial (st : List (Param × PyVal))
     (hnd : ((st.map (·.1)).map (·.name)).Nodup)
-    (h : ∀ pv ∈ st, inScope16 pv.1.cfg = true ∧ pv.1.validB pv.2 = true ∧ pv.2.finite = true ∧ ValueOK pv.1 pv.2)
+    (h : ∀ pv ∈ st, inScope16 pv.1.cfg = true ∧ pv.1.stateOK pv.2 = true ∧ pv.2.finite = true ∧ ValueOK pv.1 pv.2)
     (entries fields : List (String × Json))
     (he : schemaEntries none (st.map (·.1)) = .ok entries)
     (hf : serializeParameters st none = .ok fields) :
@@ -392,13 +409,13 @@ theorem state_validates_partial (st : List (Param × PyVal))
   rw [heq]
   exact serialized_validates_partial pv.1 pv.2 h1 h2 h3 h4 s0 j hs0 hj
 
-/-! ## Out-of-bounds numbers are rejected (no side condition) -/
+/-! ## Out-of-bounds numbers are rejected (no side condition on the declaration) -/
 
 /-- **C16, converse direction.**  For every Integer / Number declaration — any bounds, finite or
-not, any inclusivity, nullable or not — a JSON number outside the declared hard bounds does not
-validate against the parameter's schema. -/
+not, any inclusivity, nullable or not — a (finite, i.e. JSON) number outside the declared hard
+bounds does not validate against the parameter's schema. -/
 theorem out_of_bounds_rejected (p : Param) (b : Bounds) (hc : p.cfg = .integer b ∨ p.cfg = .number b)
-    (x : Json) (f : Fl) (hx : x.num? = some f) (hout : b.contains f = false)
+    (x : Json) (f : Fl) (hx : x.num? = some f) (hfin : f.isFinite = true) (hout : b.contains f = false)
     (s : Json) (hs : p.schema = .ok s) : validate s x = false := by
   have hnull : hasType "null" x = false := by
     cases x <;> simp [Json.num?] at hx <;> simp [hasType]
@@ -409,8 +426,8 @@ theorem out_of_bounds_rejected (p : Param) (b : Bounds) (hc : p.cfg = .integer b
     simp only [Except.ok.injEq] at hs; subst hs
     have h0 : validate s0 x = false := by
       rcases hc with hc | hc <;> simp only [Param.baseSchema, hc, Except.ok.injEq] at hs0 <;> subst hs0 <;>
-        rw [validate_numberSchema _ _ _ f hx] <;> simp [hout]
-    cases p.effAllowNone <;> simp [validate_nullable, h0, hnull]
+        rw [validate_numberSchema _ _ _ f hx hfin] <;> simp [hout]
+    cases p.schemaNullable <;> simp [validate_nullable, h0, hnull]
 
 /-! ## The full statement and its refutation -/
 
@@ -433,13 +450,31 @@ theorem C16_full_refuted : ¬ C16_full := by
     (.obj [("type", jstr "integer"), ("title", jstr "I")]) rfl).2 (.bool true) rfl
   simp [validate, validateKws, jstr, hasType] at this
 
-def witnessSelector : Param :=
-  { name := "s", cfg := .selector [], allowNone := .undef, default := none, doc := none, label := "S" }
+def witnessBound : Param :=
+  { name := "n", cfg := .number ⟨some (some (.float .posInf), none), true, true⟩, allowNone := .undef,
+    default := some .none, doc := none, label := "N" }
 
-/-- the well-formedness half is false as well: `Selector(objects=[])` gives `{"anyOf": [], "enum": []}` -/
+/-- the well-formedness half is false as well: `Number(None, bounds=(inf, None))` still gives
+`{"type": "number", "minimum": Infinity}` (only `-inf` below / `+inf` above are skipped) -/
 theorem wellFormed_refuted :
     ∃ (p : Param) (s : Json), inScope16 p.cfg = true ∧ p.schemaEntry = .ok s ∧ wellFormed s = false :=
-  ⟨witnessSelector, .obj [("anyOf", .arr []), ("enum", .arr []), ("title", jstr "S")], by decide, rfl, by decide⟩
+  ⟨witnessBound,
+   .obj [("anyOf", .arr [.obj [("type", jstr "number"), ("minimum", .float .posInf)], typeObj "null"]),
+         ("title", jstr "N")], by decide, rfl, by decide⟩
+
+/-- fixed in the code, kept as regression examples: `Selector(objects=[])` and a `-inf` lower bound
+now give well-formed schemas, and the `None` default of a ListSelector validates -/
+example : ∀ s, (⟨"s", .selector [], .undef, none, none, "S"⟩ : Param).schemaEntry = .ok s → wellFormed s = true := by
+  intro s h
+  have : s = .obj [("anyOf", .arr [.obj [], typeObj "null"]), ("title", jstr "S")] := by
+    have h' : (⟨"s", .selector [], .undef, none, none, "S"⟩ : Param).schemaEntry =
+        .ok (.obj [("anyOf", .arr [.obj [], typeObj "null"]), ("title", jstr "S")]) := rfl
+    rw [h'] at h; exact (Except.ok.inj h).symm
+  subst this; decide
+
+example : validate (.obj [("anyOf", .arr [.obj [("type", jstr "array"), ("items", .obj [("enum", .arr [.int 1, .int 2])])],
+    typeObj "null"])]) .null = true := by
+  simp [validate, validateKws, validateAny, typeObj, jstr, hasType]
 
 /-! ### Non-vacuity -/
 
